@@ -1,0 +1,69 @@
+// Copyright 2025 Google LLC
+//
+// Licensed under the Apache License, Version 2.0 (the "License");
+// you may not use this file except in compliance with the License.
+// You may obtain a copy of the License at
+//
+//     http://www.apache.org/licenses/LICENSE-2.0
+//
+// Unless required by applicable law or agreed to in writing, software
+// distributed under the License is distributed on an "AS IS" BASIS,
+// WITHOUT WARRANTIES OR CONDITIONS OF ANY KIND, either express or implied.
+// See the License for the specific language governing permissions and
+// limitations under the License.
+
+//go:build verif
+
+package npm
+
+import "deps.dev/util/resolve"
+
+// VerifTreeNode is an exported, plain copy of one node of the install tree
+// (the node_modules hierarchy) built by Resolve. It exists only in builds with
+// the verif tag, for verification tooling.
+type VerifTreeNode struct {
+	// Name is the directory name of the node under its parent's
+	// node_modules: the package name, or the alias it was installed as.
+	Name string
+	// Version is the installed concrete version.
+	Version resolve.VersionKey
+	// ID is the node's id in the returned graph (0 for the root, and for
+	// bundled versions that no requirement used).
+	ID resolve.NodeID
+	// Bundled reports whether the node came from a bundle.
+	Bundled bool
+	// Children are the entries of the node's node_modules directory, in no
+	// particular order. Two entries may carry the same Name only if the
+	// resolver installed two packages under one name.
+	Children []*VerifTreeNode
+	// Protected lists the slots (package names and aliases) marked protected.
+	Protected []string
+}
+
+// VerifTreeHook, if set, is called with the root of the install tree at the
+// end of every successful Resolve. It must not retain or modify the tree.
+var VerifTreeHook func(root *VerifTreeNode)
+
+func verifDumpTree(root *treeNode) {
+	if VerifTreeHook == nil {
+		return
+	}
+	var conv func(name string, n *treeNode) *VerifTreeNode
+	conv = func(name string, n *treeNode) *VerifTreeNode {
+		v := &VerifTreeNode{Name: name, Version: n.ver.VersionKey, ID: n.id, Bundled: n.bundled != nil}
+		for pk, c := range n.children {
+			v.Children = append(v.Children, conv(pk.Name, c))
+		}
+		for alias, c := range n.alias {
+			v.Children = append(v.Children, conv(alias, c))
+		}
+		for pk := range n.protected {
+			v.Protected = append(v.Protected, pk.Name)
+		}
+		for alias := range n.aliasProtected {
+			v.Protected = append(v.Protected, alias)
+		}
+		return v
+	}
+	VerifTreeHook(conv(root.pkg.Name, root))
+}
